@@ -108,6 +108,85 @@ func init() {
 			rows = append(rows, fmt.Sprintf("(%q%%string, SC_%s)", r[0], r[1]))
 		}
 		b.WriteString("Definition fastly_scopes : list (string * N) := [" + strings.Join(rows, "; ") + "].\n")
+		// linter/helper.go: the name-suffix rule of getSubroutineCallScope and the annotation names of annotationToScope
+		_, h, err := parseFile(repo, "linter/helper.go")
+		if err != nil {
+			return "", err
+		}
+		var suffixes, annots []string
+		for _, d := range h.Decls {
+			fd, ok := d.(*ast.FuncDecl)
+			if !ok || (fd.Name.Name != "getSubroutineCallScope" && fd.Name.Name != "annotationToScope") {
+				continue
+			}
+			ast.Inspect(fd, func(n ast.Node) bool {
+				cc, ok := n.(*ast.CaseClause)
+				if !ok || len(cc.List) != 1 || len(cc.Body) != 1 {
+					return true
+				}
+				ret, ok := cc.Body[0].(*ast.ReturnStmt)
+				if !ok || len(ret.Results) != 1 {
+					return true
+				}
+				sel, ok := ret.Results[0].(*ast.SelectorExpr)
+				if !ok {
+					return true
+				}
+				switch c := cc.List[0].(type) {
+				case *ast.CallExpr: // strings.HasSuffix(s.Name.Value, "_recv")
+					if f, ok := c.Fun.(*ast.SelectorExpr); ok && f.Sel.Name == "HasSuffix" && len(c.Args) == 2 {
+						if lit, ok := c.Args[1].(*ast.BasicLit); ok {
+							v, _ := strconv.Unquote(lit.Value)
+							suffixes = append(suffixes, fmt.Sprintf("(%q%%string, SC_%s)", v, sel.Sel.Name))
+						}
+					}
+				case *ast.BasicLit: // case "RECV":
+					v, _ := strconv.Unquote(c.Value)
+					annots = append(annots, fmt.Sprintf("(%q%%string, SC_%s)", v, sel.Sel.Name))
+				}
+				return true
+			})
+		}
+		if len(suffixes) == 0 || len(annots) == 0 {
+			return "", fmt.Errorf("helper.go: suffix / annotation tables not found")
+		}
+		// linter/context/builtin.go: the top-level names of the builtin function table; a subroutine of such a
+		// name is rejected by AddSubroutine / AddUserDefinedFunction and never registered
+		_, bf, err := parseFile(repo, "linter/context/builtin.go")
+		if err != nil {
+			return "", err
+		}
+		var tops []string
+		for _, d := range bf.Decls {
+			fd, ok := d.(*ast.FuncDecl)
+			if !ok || fd.Name.Name != "builtinFunctions" || fd.Body == nil {
+				continue
+			}
+			for _, st := range fd.Body.List {
+				ret, ok := st.(*ast.ReturnStmt)
+				if !ok || len(ret.Results) != 1 {
+					continue
+				}
+				cl, ok := ret.Results[0].(*ast.CompositeLit)
+				if !ok {
+					continue
+				}
+				for _, e := range cl.Elts {
+					if kv, ok := e.(*ast.KeyValueExpr); ok {
+						if lit, ok := kv.Key.(*ast.BasicLit); ok {
+							v, _ := strconv.Unquote(lit.Value)
+							tops = append(tops, fmt.Sprintf("%q%%string", v))
+						}
+					}
+				}
+			}
+		}
+		if len(tops) == 0 {
+			return "", fmt.Errorf("builtin.go: function table not found")
+		}
+		b.WriteString("Definition builtin_top_names : list string := [" + strings.Join(tops, "; ") + "].\n")
+		b.WriteString("Definition suffix_scopes : list (string * N) := [" + strings.Join(suffixes, "; ") + "].\n")
+		b.WriteString("Definition annotation_scopes : list (string * N) := [" + strings.Join(annots, "; ") + "].\n")
 		return b.String(), nil
 	})
 }
